@@ -9,16 +9,16 @@ from .. import opcheck
 _CACHE: dict = {}
 
 
-def op_report(tier: str) -> tuple[Repo, opcheck.OpReport]:
-    key = (str(REPO), tier)
+def op_report(tier: str, diff: bool = False) -> tuple[Repo, opcheck.OpReport]:
+    key = (str(REPO), tier, diff)
     if key not in _CACHE:
         repo = Repo()
-        _CACHE[key] = (repo, opcheck.analyse(repo, tier))
+        _CACHE[key] = (repo, opcheck.analyse(repo, tier, diff=diff))
     return _CACHE[key]
 
 
 def fill(check: Check, tier: str, floors: dict | None = None) -> tuple[Repo, opcheck.OpReport]:
-    repo, rep = op_report(tier)
+    repo, rep = op_report(tier, diff=check.prop == "C01")
     prop = check.prop
     obs = rep.obligations.get(prop, [])
     bad_keys = {k for k, t in rep.findings.items() if prop in t.props}
